@@ -4,6 +4,6 @@ fn main() {
     ecverif::microrun::main_for(
         ecverif::microrun::Profile { key: "c06m", drops: true, timeouts: true, tx_fail: true, rx_noise: true, only: &[] },
         300,
-        4000,
+        2000,
     );
 }
